@@ -56,7 +56,7 @@ def run_case(spec):
             listen_names[side] = [n for n in names if (n in declared and rng.random() < 0.8) or (n not in declared and rng.random() < 0.25)]
         expected = tuple(exp)
     dp = DilatedPair(world, expected=expected)
-    drv = ScriptDriver(dp, rng, names=names, max_opens=4, max_writes=25, sizes=(1, 10, 300, 20000), late_listen=0.5,
+    drv = ScriptDriver(dp, rng, names=names, max_opens=4, max_writes=25, sizes=(1, 10, 300, 20000, (65490, 65545)), late_listen=0.5,
                        half=spec["half"], close_prob=1.0, listen_names=listen_names, reactive=rng.choice([0, 0, 6, 14]), falsy=rng.choice([0.0, 0.0, 0.0, 0.5]))
     # (drv.escaping stays 0: an exception that the application lets escape from connectionLost() is an application
     #  defect, and on the unmodified tree it already costs other subchannels their records - DESIGN 8.3)
